@@ -73,6 +73,12 @@ def _configs(tier):
         for n in range(1, 6 if T else 5):
             for w in W3:
                 A({'block': b, 'n': n, 'w': w})
+    # n-ary gates whose inputs differ in width (operands are zero-extended / cut to the width of the result): every
+    # position of the narrowest and of the widest operand, result as wide as the widest operand, narrower, wider
+    for b in ('And', 'Or', 'Xor', 'Nor'):
+        for ws, rw in (('1+2', 2), ('2+1', 2), ('2+3', 3), ('1+3+3', 3), ('3+1+2', 3), ('1+2+3', 3), ('3+2+1', 3),
+                       ('2+2+1', 2), ('1+1+2', 2), ('1+2+2', 3), ('2+2+2', 3), ('2+2+2', 1), ('2+1+1+2', 2), ('1+2+1+2', 2)):
+            A({'block': b, 'ws': ws, 'w': rw})
     for b in ('And2', 'Or2', 'Xor2', 'Nand2', 'Nor2', 'BufEnable', 'Swap'):
         for w in W3:
             A({'block': b, 'w': w})
@@ -220,6 +226,8 @@ def _inbits(d):
     b = d['block']
     w = d.get('w', 1)
     n = d.get('n', 1)
+    if d.get('ws'):
+        return sum(logic.ints(d['ws']))
     if b in ('And', 'Or', 'Xor', 'Nor', 'AnyEqual'):
         return n * w
     if b in ('And2', 'Or2', 'Xor2', 'Nand2', 'Nor2'):
@@ -329,7 +337,9 @@ def build(d):
         outs.append(('r', r))
         return hw, ins, outs
     cls = getattr(py4hw, b)
-    if b in ('And', 'Or', 'Xor', 'Nor'):
+    if b in ('And', 'Or', 'Xor', 'Nor') and d.get('ws'):
+        args = ([I('in%d' % i, wi) for i, wi in enumerate(logic.ints(d['ws']))], O('r', w))
+    elif b in ('And', 'Or', 'Xor', 'Nor'):
         args = (IL('in', n, w), O('r', w))
     elif b in ('And2', 'Or2', 'Xor2', 'Nand2', 'Nor2'):
         args = (I('a', w), I('b', w), O('r', w))
